@@ -50,14 +50,16 @@ Record variant := { v_fieldmask_stored : bool;     (* genFieldMask stores the li
                     v_any_nil_field : bool;        (* genAny tolerates field == nil                   (3227b11) *)
                     v_list_truncate : bool;        (* a failed list element is removed: Truncate(Len()-1),
                                                       not Truncate(i) with the loop index             (0c6fe98) *)
-                    v_root_draw : bool }.          (* MessageGenerator draws a bool before setFields  (402bd9f) *)
+                    v_root_draw : bool;            (* MessageGenerator draws a bool before setFields  (402bd9f) *)
+                    v_list_clear : bool }.         (* a repeated field none of whose requested elements
+                                                      survived is cleared, not left empty             (9f5602c) *)
 (* the code before the `fix:` commits named above (kept: the refutations are regression witnesses) *)
 Definition current : variant :=
   {| v_fieldmask_stored := false; v_enum_by_number := false; v_any_container := false; v_any_nil_field := false;
-     v_list_truncate := false; v_root_draw := false |}.
+     v_list_truncate := false; v_root_draw := false; v_list_clear := false |}.
 Definition repaired : variant :=
   {| v_fieldmask_stored := true; v_enum_by_number := true; v_any_container := true; v_any_nil_field := true;
-     v_list_truncate := true; v_root_draw := true |}.
+     v_list_truncate := true; v_root_draw := true; v_list_clear := true |}.
 
 (* which field descriptor genAny was handed: none (MessageGenerator, Any payload) or a field with
    or without accepts_interface *)
@@ -309,6 +311,15 @@ Section Range.
   Definition child_ok_container (r : nat) (tm : nat) : bool :=      (* through setFields *)
     (2 <=? r)%nat && (if is_any ann tm then has_urls || negb (v_any_container vr) else true).
 
+  (* an EMPTY NON-NIL list (what a Go struct distinguishes from nil; renderings that cannot tell say
+     nil): Mutable allocated it and nothing was appended: a drawn length of 0, or - before 9f5602c -
+     requested elements that all failed *)
+  Definition rep_exact_ok (all_fail : bool) (s : val) : bool :=
+    match s with
+    | VList [] => (min_len =? 0) || (negb (v_list_clear vr) && all_fail)
+    | _ => true
+    end.
+
   Definition rg_slot (r : nat) (p : N) (f : field) (fa : fannot) (s : val) : bool :=
     match f_shape f, f_ty f with
     | Singular, TScalar _ => true
@@ -319,8 +330,10 @@ Section Range.
       | _ => false
       end
     | Rep _, TScalar _ =>
+      rep_exact_ok false s &&
       match rep_len s with Some l => (min_len <=? N.of_nat (length l)) && len_le l (10 * p) | None => false end
     | Rep _, TMsg tm =>
+      rep_exact_ok (negb (child_ok_container r tm)) s &&
       match rep_len s with
       | Some l =>
         if child_ok_container r tm then
@@ -476,7 +489,7 @@ Fixpoint ann_ok_aux (sch : schema) (ann : annots) : bool :=
   end.
 Definition ann_ok (sch : schema) (ann : annots) : bool := ann_ok_aux sch ann.
 
-(* ---- the model of the code as it stands in /repo (all six `fix:` commits are in) ---------------- *)
+(* ---- the model of the code as it stands in /repo (all seven `fix:` commits are in) -------------- *)
 Definition code_variant : variant := repaired.
 
 (* ---- the validity properties, as families of local predicates for [deep] -------------------- *)
@@ -557,6 +570,12 @@ Definition no_empty_preds (vr : variant) (o : gopts) (ann : annots) : preds :=
          | _, _ => true
          end
        else true;
+     p_msg := true_msg |}.
+(* ... and no repeated field holds an empty non-nil list, at any depth (what the option is for) *)
+Definition no_empty_nonnil_preds (o : gopts) : preds :=
+  {| p_scalar := true_scalar;
+     p_slot := fun _ _ f _ s =>
+       if o_no_empty o then match f_shape f, s with Rep _, VList [] => false | _, _ => true end else true;
      p_msg := true_msg |}.
 (* DisallowNilMessages: a singular message field whose message can be generated is set *)
 Definition disallow_nil_preds (o : gopts) (ann : annots) : preds :=
@@ -804,7 +823,9 @@ Section Gen.
       match f_ty f with
       | TMsg tm =>
         match list_loop child depth fa tm (N.to_nat n) 0%nat l t1 with
-        | Ok (l', t2) => Ok (put (VList l'), t2)
+        | Ok (l', t2) =>
+          (* if n > 0 && list.Len() == 0 { msg.Clear(field) } *)
+          Ok (put (if v_list_clear vr && (0 <? n) && is_nilb l' then VNil else VList l'), t2)
         | Err => Err | Panic => Panic | OutOfFuel => OutOfFuel
         end
       | TScalar k =>
